@@ -378,7 +378,44 @@ def unit_inspect(U):
                         p.pc, goal, {"limit": L})
 
 
-UNITS = [("peek", unit_peek), ("iter", unit_iter), ("dispatch", unit_dispatch), ("init", unit_init_modes), ("reuse", unit_reuse), ("inspect", unit_inspect)]
+def unit_init_state(U, prefix="C13"):
+    """every iterator starts with its OWN empty directives list: nothing is shared between iterator objects (a shared
+    default would carry the directives of the last file parsed into a database built from Feature objects)"""
+    it = Interp()
+
+    def run(ctx):
+        it.contracts[H._choose_dialect] = lambda interp, a, k: {"fmt": "gff3"}
+        a, b = object.__new__(IT._FeatureIterator), object.__new__(IT._FeatureIterator)
+        it.call(IT._BaseIterator.__init__, [a, items(1)], {})
+        a.directives.append("from-a")
+        it.call(IT._BaseIterator.__init__, [b, items(1)], {})
+        return a, b
+
+    def replay(m):
+        import tempfile, os
+        d = tempfile.mkdtemp()
+        try:
+            fn = os.path.join(d, "a.gff")
+            open(fn, "w").write("##gff-version 3\n##marker old\nchr1\t.\tgene\t1\t5\t.\t+\t.\tID=a\n")
+            list(IT.DataIterator(fn))
+            feats = [F.Feature(seqid="c", featuretype="gene", start=1, end=5, attributes={"ID": ["n"]})]
+            di = IT.DataIterator(feats)
+            list(di)
+            db = gffutils.create_db(feats, ":memory:")
+            obs = {"DataIterator(features).directives": list(di.directives), "create_db(features).directives": list(db.directives)}
+            return {"inputs": "parse a file with directives, then iterate / import Feature objects", "expected": {k: [] for k in obs}, "observed": obs, "violates": any(v for v in obs.values())}
+        finally:
+            import shutil
+            shutil.rmtree(d, ignore_errors=True)
+    for p in U.explore(run, it):
+        ok = p.kind == "return"
+        if ok:
+            a, b = p.value
+            ok = isinstance(a.directives, list) and isinstance(b.directives, list) and a.directives is not b.directives and b.directives == [] and a.directives == ["from-a"]
+        U.prove("%s.init.fresh_state#p%d" % (prefix, p.index), "a new iterator has its own empty directives list (not shared with any other iterator, not a default-argument object)", [], z3.BoolVal(bool(ok)), {}, replay=replay)
+
+
+UNITS = [("peek", unit_peek), ("iter", unit_iter), ("dispatch", unit_dispatch), ("init", unit_init_modes), ("init_state", unit_init_state), ("reuse", unit_reuse), ("inspect", unit_inspect)]
 try:
     from standins import C13 as _S
     UNITS = UNITS + list(_S.UNITS)
